@@ -30,6 +30,7 @@ import (
 
 func e2eWorkerMain() {
 	syncDone := installSyncWatch() // no-op unless VERIF_WAIT_SYNC is set (c07_crash.go)
+	sfLogCap := sfInstallLogCapture() // no-op unless VERIF_LOG_ERRORS is set (c18_segfault.go)
 	dir := bootEngine()
 	if !engineKeep {
 		defer os.RemoveAll(dir)
@@ -91,7 +92,13 @@ func e2eWorkerMain() {
 		case "waitsync":
 			// restart on an existing data dir: wait until the startup goroutine that adopts segment dirs
 			// (query.initSyncSegMetaForAllIds) has finished; prints {"sync":"done"|"timeout"}
-			fmt.Fprintf(out, "{\"sync\":%q}\n", waitSync(syncDone))
+			if sfLogCap {
+				b, _ := json.Marshal(map[string]interface{}{"sync": waitSync(syncDone), "logErrors": sfDrainLogErrors()})
+				out.Write(b)
+				out.WriteByte('\n')
+			} else {
+				fmt.Fprintf(out, "{\"sync\":%q}\n", waitSync(syncDone))
+			}
 			out.Flush()
 		case "bulk":
 			// bulk <hex body>: the real Elasticsearch bulk entry point; prints {"items":[status…],"errors":bool}
@@ -195,6 +202,9 @@ func e2eWorkerMain() {
 				res["columnsOrder"] = resp.ColumnsOrder
 			} else {
 				res["err"] = "nil response"
+			}
+			if sfLogCap {
+				res["logErrors"] = sfDrainLogErrors() // error-level log lines emitted while this query ran
 			}
 			b, _ := json.Marshal(res)
 			out.Write(b)
